@@ -244,6 +244,54 @@ def check_shipped(i: int, v: int, args: tuple) -> bool:
     return gen.decode(t) == before
 
 
+# ---------------------------------------------------------------- ORM visitors (Django, SQLAlchemy ORM / Core)
+ORM_TREES: list = []
+ORM_VIS: list = []
+
+
+def _orm_setup() -> None:
+    from ..models import setup as msetup
+    from ..models import sa as samodels
+    dj = msetup.django_setup()
+    from odata_query.django.django_q import AstToDjangoQVisitor
+    from odata_query.sqlalchemy.core import AstToSqlAlchemyCoreVisitor
+    from odata_query.sqlalchemy.orm import AstToSqlAlchemyOrmVisitor
+    ORM_VIS[:] = [("django", lambda: AstToDjangoQVisitor(dj.Item)), ("sa_orm", lambda: AstToSqlAlchemyOrmVisitor(samodels.Item)),
+                  ("sa_core", lambda: AstToSqlAlchemyCoreVisitor(samodels.Item.__table__))]
+    I, S, N = ast.Identifier, ast.String, ast.Integer
+    np_ = ast.NamedParam
+    ORM_TREES[:] = [
+        ast.Compare(ast.Eq(), ast.Call(I("tolower"), [np_(I("field"), I("name"))]), S("a")),
+        ast.Compare(ast.Eq(), ast.Call(I("substring"), [np_(I("fullstr"), I("name")), np_(I("index"), N("1"))]), S("a")),
+        ast.Call(I("contains"), [np_(I("field"), I("title")), np_(I("substr"), S("x"))]),
+        ast.Call(I("contains"), [I("title"), np_(I("substr"), S("x"))]),
+        ast.Compare(ast.Eq(), ast.Call(I("substring"), [I("name"), N("1"), N("2")]), S("a")),
+        ast.Compare(ast.In(), I("name"), ast.List([S("a"), S("b")])),
+        ast.Compare(ast.Gt(), ast.Call(I("length"), [I("name")]), ast.BinOp(ast.Add(), I("n"), N("1"))),
+        ast.BoolOp(ast.And(), ast.Compare(ast.Eq(), I("flag"), ast.Boolean("true")),
+                   ast.UnaryOp(ast.Not(), ast.Call(I("startswith"), [I("name"), S("a")]))),
+        ast.Compare(ast.Eq(), ast.Call(I("concat"), [I("name"), ast.Call(I("trim"), [I("title")])]), S("ab")),
+        ast.Compare(ast.Eq(), ast.Call(I("fn", ("ns",)), [np_(I("p"), S("x")), np_(I("q"), N("2"))]), N("1")),
+    ]
+
+
+def check_orm(v: int, k: int) -> bool:
+    """translating a tree with an ORM backend does not modify it (named parameters included) - so translating the
+    same parsed tree twice behaves the same way."""
+    t = ORM_TREES[k]
+    before = gen.decode(t)
+    outcomes = []
+    for _ in range(2):
+        try:
+            ORM_VIS[v][1]().visit(t)
+            outcomes.append("ok")
+        except Exception as e:  # noqa: BLE001
+            outcomes.append(type(e).__name__)
+        if gen.decode(t) != before:
+            return False
+    return outcomes[0] == outcomes[1]
+
+
 # ---------------------------------------------------------------- shapes
 def _shapes(tier: str, seed: int) -> List[dict]:
     NEW = gen.NEW
@@ -284,6 +332,7 @@ def _shapes(tier: str, seed: int) -> List[dict]:
 def prepare(tier: str, seed: int) -> None:
     SHAPES[:] = _shapes(tier, seed)
     SHIPPED[:] = _shipped()
+    _orm_setup()
 
 
 def main() -> int:
@@ -298,7 +347,7 @@ def main() -> int:
                              "depth 2 seeded sample", "override kinds": OVERRIDE_KINDS,
                   "shipped visitors": [n for n, _ in SHIPPED]}
     run.outside = ["strings longer than 1 code point", "nesting deeper than 2",
-                   "Django / SQLAlchemy visitors' no-mutation clause (checked with C02-C04/C12 harnesses, not here)"]
+                   "ORM visitors are checked on 10 fixed trees (incl. named parameters) with symbolic picks only"]
     run.assumptions = ["tree shape concrete per obligation; leaves and operator choices symbolic",
                        "handlers that do not call generic_visit stop the descent (documented NodeVisitor contract)"]
     items = []
@@ -332,7 +381,10 @@ def main() -> int:
             items.append(Item(f"eq{i}", params + ", " + p2, f"({pre}) and ({pre2})",
                               f"check_eq({i}, ({', '.join(names + n2)},))", describe=d, family="equality"))
         run.sample(d, cap=5)
-    header = "from verif.props.c16 import check_core, check_override, check_eq, check_shipped, POOL\n"
+    for v, (vn, _) in enumerate(ORM_VIS):
+        items.append(Item(f"orm_{vn}", "k: int", f"0 <= k < {len(ORM_TREES)}", f"check_orm({v}, k)",
+                          describe={"visitor": vn, "trees": len(ORM_TREES)}, family="orm-visitors-no-mutation", isolate=True))
+    header = "from verif.props.c16 import check_core, check_override, check_eq, check_shipped, check_orm, POOL\n"
     run_items(run, header, items, per_condition_timeout=40 if run.tier == "quick" else 150,
               progress=bool(os.environ.get("VERIF_PROGRESS")))
     return run.finish()
